@@ -31,30 +31,23 @@ Qed.
 
 (* ---------------------------------------------------------------- only the listed inputs panic *)
 
-Lemma dispatch_panic_known : forall st now idx p m st' s,
-  dispatch st now idx p m = (st', OPanic s) -> known_msg st now p m = true.
+Lemma dispatch_never_panics : forall st now idx p m st' s,
+  dispatch st now idx p m = (st', OPanic s) -> False.
 Proof.
   intros st now idx p m st' s H.
   destruct m as [| sig_ok ver_ok key | | ty len verified | | | | | n | | a | | | | n];
-    cbn [dispatch known_msg] in *; try (inversion H; fail); try reflexivity.
-  - (* MChallenge *)
-    cbn [p_hs set_hs] in H.
-    destruct (lim_check (lim_increase (p_hs p)) now) as [h ex]. destruct ex; inversion H.
-  - (* MResponse *)
-    cbn [p_hs set_hs] in H.
-    destruct (lim_check (lim_increase (p_hs p)) now) as [h ex].
-    destruct ex; [inversion H|].
-    destruct (negb (ver_ok && p_challenge (set_hs h (set_hs (lim_increase (p_hs p)) p)) && sig_ok)); [inversion H|].
-    destruct (p_key (set_hs h (set_hs (lim_increase (p_hs p)) p))) as [k|]; [|inversion H].
-    destruct (k =? key); inversion H.
-  - (* MGhostReq *)
-    destruct (p_key p); [|reflexivity].
-    destruct (a && overflow_checks st); [reflexivity|inversion H].
-  - (* MKeyList *)
-    cbn [p_kl set_kl] in H.
-    destruct (lim_check (lim_increase (p_kl p)) now) as [k ex]. cbn [snd].
-    destruct ex; [reflexivity|inversion H].
+    cbn [dispatch] in H;
+    repeat match type of H with
+           | context [let (_, _) := ?x in _] => destruct x
+           | context [if ?b then _ else _] => destruct b
+           | context [match ?x with Some _ => _ | None => _ end] => destruct x
+           end;
+    inversion H.
 Qed.
+
+Lemma dispatch_panic_known : forall st now idx p m st' s,
+  dispatch st now idx p m = (st', OPanic s) -> known_msg st now p m = true.
+Proof. intros. exfalso. eapply dispatch_never_panics. eassumption. Qed.
 
 Lemma step_panic_known : forall st now idx e st' s,
   step st now idx e = (st', OPanic s) -> known_input st (now, idx, e) = true.
@@ -86,20 +79,6 @@ Proof.
     destruct o as [| | | s].
     1-3: apply IH; intro Hc; apply Hk; right; cbn [fst]; exact Hc.
     exfalso. apply Hk. left. eapply step_panic_known. exact E.
-Qed.
-
-(* the converse direction, for the record: a listed input does panic *)
-Lemma dispatch_known_panics : forall st now idx p m,
-  known_msg st now p m = true -> exists s, snd (dispatch st now idx p m) = OPanic s.
-Proof.
-  intros st now idx p m H.
-  destruct m as [| sig_ok ver_ok key | | ty len verified | | | | | n | | a | | | | n];
-    cbn [dispatch known_msg] in *; try discriminate.
-  - eexists. reflexivity.
-  - destruct (p_key p); [rewrite H|]; eexists; reflexivity.
-  - cbn [p_kl set_kl].
-    destruct (lim_check (lim_increase (p_kl p)) now) as [k ex]. cbn [snd] in H. subst ex.
-    cbn [p_key set_kl]. destruct (p_key p); [|destruct (debug_log st)]; eexists; reflexivity.
 Qed.
 
 (* ---------------------------------------------------------------- frame: a message only touches the sender's entry *)
@@ -202,20 +181,18 @@ Proof.
   - destruct (aget idx (peers st)); inversion H; subst; destruct Ho; discriminate.
 Qed.
 
-(* the listed inputs do panic: the class is exact, not an over-approximation *)
-Theorem known_input_panics : forall st i,
-  known_input st i = true ->
-  exists s, snd (step st (fst (fst i)) (snd (fst i)) (snd i)) = OPanic s.
+(* with the repairs applied nothing is listed any more: no input sequence panics *)
+Lemma nothing_known : forall l st, ~ Known_C11 st l.
 Proof.
-  intros st [[now idx] e] H. cbn [fst snd]. cbn [known_input] in H.
-  destruct e as [| ext | mo | f | | d | dt]; try discriminate.
-  destruct mo as [m|]; [|discriminate].
-  cbn [step].
-  destruct (aget idx (peers st)) as [p|]; [|discriminate].
-  destruct (lim_check (p_msg (set_msg (lim_increase (p_msg p)) p)) now) as [l ex].
-  destruct ex; cbn [negb andb] in H; [discriminate|].
-  apply dispatch_known_panics. exact H.
+  induction l as [|[[now idx] e] t IH]; intros st; cbn [Known_C11]; [tauto|].
+  intros [H|H]; [|exact (IH _ H)].
+  cbn [known_input] in H. destruct e; try discriminate. destruct m; try discriminate.
+  destruct (aget idx (peers st)); try discriminate.
+  destruct (lim_check _ now). unfold known_msg in H. rewrite andb_false_r in H. discriminate.
 Qed.
+
+Theorem never_panics : forall msgs st site st', run st msgs <> Panic site st'.
+Proof. intros. apply dispatch_safe. apply nothing_known. Qed.
 
 (* a decidable form of the listed class, for concrete sequences *)
 Fixpoint known_any (st : state) (l : list input) : bool :=
